@@ -907,7 +907,13 @@ class Driver:
             self.driver_actor.drive_at(worker, worker_start_timestamp)
 
     def may_complete_current_task(self, task_allocations):
-        any_joinpoints_completing_parent = [a for a in task_allocations if a.task.any_task_completes_parent]
+        # only a worker that hosts a client of a task that may complete its parent counts: a worker without any task in this element
+        # reaches the join point at once, which does not mean that a task has finished.
+        any_joinpoints_completing_parent = [
+            a
+            for a in task_allocations
+            if any(self.clients_per_worker.get(c) in self.workers_completed_current_step for c in a.task.any_task_completes_parent)
+        ]
         joinpoints_completing_parent = [a for a in task_allocations if a.task.preceding_task_completes_parent]
 
         # If 'completed-by' is set to 'any', then we *do* want to check for completion by
